@@ -17,10 +17,10 @@ class MySQLParser(SQLParser):
         ('left', AND),
         ('right', UNOT),
         ('left', EQUALS, NEQUALS),
+        ('nonassoc', LESS, LEQ, GREATER, GEQ, IN, BETWEEN, IS, IS_NOT, LIKE, NOT),
         ('left', PLUS, MINUS),
-        ('left', STAR, DIVIDE),
+        ('left', STAR, DIVIDE, MODULO),
         ('right', UMINUS),  # Unary minus operator, unary not
-        ('nonassoc', LESS, LEQ, GREATER, GEQ, IN, BETWEEN, IS, IS_NOT, LIKE),
     )
 
     # Top-level statements
